@@ -89,7 +89,7 @@ func isWaitStmt(p *Pkg, s ast.Stmt) bool {
 
 func genParFacts() {
 	p := loadPkg(filepath.Join(repoRoot(), "lib", "query"), queryPkg)
-	a := &analysis{p: p, initLits: map[types.Object][]*ast.FuncLit{}, initOf: map[types.Object]ast.Expr{}, called: map[string]bool{},
+	a := &analysis{p: p, sums: newSummaries(), initLits: map[types.Object][]*ast.FuncLit{}, initOf: map[types.Object]ast.Expr{}, called: map[string]bool{},
 		decls: map[types.Object]*ast.FuncDecl{}}
 
 	// function declarations; local variables initialised with function literals
